@@ -5,6 +5,11 @@ import "sort"
 var sched = Build{Kind: "sched"}
 var plain = Build{Kind: "plain"}
 
+// schedCoarse: atomics inside the components that are verified on their own with every atomic a
+// scheduling point (RBMutex: C01/rbmutex-*, striped counter: C16/counter, read buffer: C08) are not
+// scheduling points; their blocking points (rw lock, Gosched spins) remain. Assume-guarantee split of DESIGN §2.2.
+var schedCoarse = Build{Kind: "sched", Coarse: []string{"rbmutex.go", "counter.go", "buffer.go"}}
+
 var allChecks []*Check
 
 // register is called from the per-property reg_cXX.go files.
